@@ -492,6 +492,166 @@ class ReenterFn(Reenter):
         return self._do(target, scope, False)
 
 
+# ----------------------------------------------------------------------------- container literals in argument position
+
+ARG_KINDS = {'list': list, 'dict': dict, 'set': set, 'tuple': tuple, 'frozenset': frozenset}
+ARG_FUEL = 8            # = argFuel of the Lean driver (how deep a value is read; a cyclic one is cut there)
+# where the literal stands: S(acc=LIT) / Coalesce(…, default=LIT) / T.get(k, LIT) / Call(f, args=(LIT,)) /
+# Call(f, kwargs={'x': LIT}) / S.k(LIT) / Assign(p, LIT) / Or(…, default=LIT) / Optional(k, default=LIT) /
+# Check(…, default=LIT) / Switch(…, default=LIT) / S(acc=Coalesce(…, default=LIT))
+ARG_POS = ['sset', 'coalesce', 'tget', 'callarg', 'callkw', 'tcall', 'assign', 'ordefault', 'optdefault',
+           'checkdefault', 'switchdefault', 'ssetnested']
+
+
+def leaf_obj(token):
+    """a leaf of a literal: a T expression (evaluated per call) or a constant (its repr)"""
+    import ast
+    import glom
+    if token.startswith('T['):
+        return glom.T[ast.literal_eval(token[2:-1])]
+    return ast.literal_eval(token)
+
+
+def build_lit(heap, root):
+    """the Python object graph of a literal given as an object heap [[kind, [item…]]…], item =
+    ['leaf', token] | ['ref', addr]; dict items are k, v, k, v …; sharing and cycles (through
+    lists / dicts) are kept"""
+    memo = {}
+
+    def val(item):
+        return leaf_obj(item[1]) if item[0] == 'leaf' else obj(item[1])
+
+    def obj(a):
+        if a in memo:
+            return memo[a]
+        kind, items = heap[a]
+        if kind == 'list':
+            o = memo[a] = []
+            o.extend(val(x) for x in items)
+        elif kind == 'dict':
+            o = memo[a] = {}
+            for i in range(0, len(items), 2):
+                k = val(items[i])
+                o[k] = val(items[i + 1])
+        elif kind == 'set':
+            o = memo[a] = set()
+            o.update(val(x) for x in items)
+        else:
+            o = ARG_KINDS[kind](val(x) for x in items)
+            memo[a] = o
+        return o
+    return obj(root)
+
+
+def py_tokens(v, fuel=ARG_FUEL):
+    """a value as a call can observe it: `Arg.tokens` of the Lean model (sets sorted; `...` at the cut)"""
+    t = type(v)
+    if t in (list, dict, set, tuple, frozenset):
+        if fuel == 0:
+            return ['...']
+        inner = []
+        if t is dict:
+            for k, x in v.items():
+                inner += py_tokens(k, fuel - 1) + py_tokens(x, fuel - 1)
+        elif t in (set, frozenset):
+            inner = sorted(tok for x in v for tok in py_tokens(x, fuel - 1))
+        else:
+            for x in v:
+                inner += py_tokens(x, fuel - 1)
+        return [t.__name__ + '('] + inner + [')']
+    return [repr(v)]
+
+
+class Keep:
+    """catalogue callable: hands back its argument"""
+
+    def __call__(self, x=None):
+        return x
+
+    def __repr__(self):
+        return 'Keep'
+
+
+class Push:
+    """catalogue callable: the call adds an item of its own to the container it was handed"""
+
+    def __call__(self, acc, x):
+        if type(acc) is list:
+            acc.append(x)
+        elif type(acc) is set:
+            acc.add(x)
+        else:
+            acc.setdefault(x, 1)
+
+    def __repr__(self):
+        return 'Push'
+
+
+class Snap:
+    def __call__(self, acc):
+        return py_tokens(acc)
+
+    def __repr__(self):
+        return 'Snap'
+
+
+def build_accum(d, ctx):
+    """(S(t=T), <the literal in argument position; its value bound to S.acc>, pushes of the call's own
+    id / name into containers of that value (T method on the scope value, or a catalogue callable),
+    yield points, and finally what the call reads of S.acc)"""
+    import glom
+    from glom import T, S, A, Coalesce, Call, Assign, Or, Match, Optional, Check, Switch, Val
+    lit = build_lit(d['heap'], d['root'])
+    if getattr(ctx, 'lits', None) is not None:
+        ctx.lits.append(lit)
+    pos = d['pos']
+    if pos == 'sset':
+        obtain = [S(acc=lit)]
+    elif pos == 'ssetnested':
+        obtain = [S(acc=Coalesce('nokey', default=lit))]
+    elif pos == 'assign':
+        obtain = [Assign('slot', lit), S(acc=T['slot']), S.t]
+    else:
+        first = {'coalesce': lambda: Coalesce('nokey.zz', default=lit),
+                 'tget': lambda: T.get('nokey', lit),
+                 'callarg': lambda: Call(Keep(), args=(lit,)),
+                 'callkw': lambda: Call(Keep(), kwargs={'x': lit}),
+                 'tcall': lambda: S.k(lit),
+                 'ordefault': lambda: Or('nokey', default=lit),
+                 'optdefault': lambda: Match({Optional('zz', default=lit): object, object: object}),
+                 'checkdefault': lambda: Check(type=int, default=lit),
+                 'switchdefault': lambda: Match(Switch([(int, 1)], default=lit))}[pos]()
+        obtain = ([S(k=Val(Keep()))] if pos == 'tcall' else []) + [first] + \
+                 ([T['zz']] if pos == 'optdefault' else []) + [A.acc, S.t]
+    steps = [S(t=T)] + obtain
+    for st in d['steps']:
+        if st[0] == 'y':
+            steps.append(Y(ctx, st[1]))
+            continue
+        _, pypath, _mpath, field, via, kind = st
+        acc = S.acc
+        for k in pypath:
+            acc = acc[k]
+        x = S.t[field]
+        if via == 'tmethod':
+            call = acc.append(x) if kind == 'list' else acc.add(x) if kind == 'set' else acc.setdefault(x, 1)
+        else:
+            call = Call(Push(), args=(acc, x))
+        steps += [call, S.t]
+    steps.append(Call(Snap(), args=(S.acc,)))
+    return tuple(steps)
+
+
+def accum_ops(d, target):
+    """the call in the operations of the Lean model, and what the target makes of the T leaves"""
+    t = dec(target)
+    ops = [['bind', d['root']]]
+    for st in d['steps']:
+        ops.append(['yield'] if st[0] == 'y' else ['push', st[2], repr(t[st[3]])])
+    ops.append(['read'])
+    return {'ev': [["T['%s']" % k, repr(v)] for k, v in t.items()], 'ops': ops}
+
+
 def build(sj, ctx):
     import glom
     from glom import T, S, A, Coalesce, Fold, Fill, Match, Val
@@ -546,6 +706,8 @@ def build(sj, ctx):
         return glom.Assign(sj[1], build(sj[2], ctx), missing=Fac(ctx, sj[3]))
     if k == 'matchkey':
         return Match({KeyR(ctx, sj[1], 'token'): str, 'id': int})
+    if k == 'accum':
+        return build_accum(sj[1], ctx)
     if k == 'T':
         t = T
         for kind, key in sj[1]:
@@ -743,13 +905,18 @@ def run_shared(case):
     schedule, free-running, or re-entrantly from one of its own yield points"""
     import glom
     out = dict(case)
-    spec = build(case['spec'], DynCtx())
     targets = case['targets']
     n = len(targets)
     payload = []
     for tid, tj in enumerate(targets):
-        log, o = shared_alone(spec, tj, tid)
+        # "alone": the only call there is -- on a spec object of its own, built the same way
+        log, o = shared_alone(build(case['spec'], DynCtx()), tj, tid)
         payload.append({'events': log, 'alone': o})
+    dctx = DynCtx()
+    dctx.lits = []
+    spec = build(case['spec'], dctx)
+    spec_before = _ADDR.sub('0x?', repr(spec))
+    lits_before = [py_tokens(x) for x in dctx.lits]
     clear_caches()
     deadlock = False
     if 'nest_at' in case:
@@ -821,9 +988,35 @@ def run_shared(case):
             sys.setswitchinterval(old)
     pc, tc = snapshot_caches()
     out['threads'] = payload
-    out['impl'] = {'outs': [r if r is not None else {'err': ['NoResult', 'the call did not finish']} for r in results],
-                   'pcache': pc, 'tcache': tc, 'deadlock': deadlock}
+    outs = [r if r is not None else {'err': ['NoResult', 'the call did not finish']} for r in results]
+    out['impl'] = {'outs': outs, 'pcache': pc, 'tcache': tc, 'deadlock': deadlock,
+                   'spec_same': _ADDR.sub('0x?', repr(spec)) == spec_before}
+    if case['spec'][0] == 'accum':
+        # the same calls for the Lean model of `_ArgValuator.mode` on an object heap
+        d = case['spec'][1]
+        ths = [dict(accum_ops(d, tj), alone=read_of(payload[i]['alone']) or ['<no value>'])
+               for i, tj in enumerate(targets)]
+        if 'nest_at' in case:       # thread 0 up to its j-th yield point, thread 1 entirely, the rest of thread 0
+            msched = [0] * (case['nest_at'] + 1) + [1] * 16 + [0] * 16
+        else:
+            msched = case.get('schedule')
+        out['argsys'] = {'heap': d['heap'], 'root': d['root'], 'threads': ths, 'schedule': msched}
+        out['impl']['reads'] = [read_of(o) for o in outs]
+        out['impl']['lits'] = [lits_before[0], py_tokens(dctx.lits[0])]
     return out
+
+
+def read_of(o):
+    """the token list a call returned (None: it failed)"""
+    import ast
+    if 'val' not in o:
+        return None
+    try:
+        v = ast.literal_eval(o['val'])
+    except (ValueError, SyntaxError):
+        return None
+    return v if isinstance(v, list) and all(isinstance(x, str) for x in v) else None
+
 
 
 def run_impl(case):
@@ -1307,6 +1500,139 @@ def gen_shared(rng, tier):
             yield {'mode': 'shared', 'names': [name], 'spec': spec, 'targets': targets, 'reps': 15 if quick else 60}
 
 
+class AccGen:
+    """randomised, type-directed generator of specs with a CONTAINER LITERAL IN ARGUMENT POSITION whose
+    value the call keeps, mutates and reads.  Choices: the literal as an object heap -- root kind
+    (list / dict / set / tuple), per container empty or 1-3 items, items constants / T leaves /
+    nested containers to depth 2 / a second reference to a list, dict or set that already exists
+    (sharing; a reference to an enclosing list or dict: the literal contains itself); the argument
+    position (ARG_POS); the call's program: 1-3 pushes of its own id / name into mutable containers
+    of the value it received (reached by index / key; T method on the scope value or a catalogue
+    callable), 1-2 yield points between them, the final read."""
+
+    CONSTS = ["'c0'", "'c1'", '7', 'None', "'x'"]
+    TLEAVES = ["T['id']", "T['name']"]
+
+    def __init__(self, rng):
+        self.rng = rng
+
+    def literal(self):
+        r = self.rng
+        heap = []
+
+        def leaf(allow_t=True):
+            return ['leaf', r.choice(self.TLEAVES if allow_t and r.random() < 0.35 else self.CONSTS)]
+
+        def share(open_):
+            """an existing list / dict (also an enclosing one: a cycle), or a completed set"""
+            cands = [a for a, (k, _) in enumerate(heap) if k in ('list', 'dict') or (k == 'set' and a not in open_)]
+            return ['ref', r.choice(cands)] if cands else None
+
+        def container(kind, depth, open_, must_mut=False):
+            a = len(heap)
+            heap.append([kind, []])
+            open_ = open_ | {a}
+            n = 0 if (r.random() < 0.45 and not must_mut) else r.randint(1, 3)
+            items = []
+            if kind in ('set', 'frozenset'):
+                toks = r.sample(self.CONSTS + self.TLEAVES[:1], min(n, 3))
+                items = [['leaf', t] for t in toks]
+            else:
+                for i in range(n):
+                    x = r.random()
+                    if must_mut and i == 0:
+                        v = ['ref', container(r.choice(['list', 'dict', 'set']), depth + 1, open_)]
+                    elif x < 0.15:
+                        v = share(open_) or leaf()
+                    elif x < 0.5 and depth < 2:
+                        v = ['ref', container(r.choice(['list', 'list', 'dict', 'set', 'tuple', 'frozenset']),
+                                              depth + 1, open_)]
+                    else:
+                        v = leaf()
+                    if kind == 'dict':
+                        items += [['leaf', "'k%d'" % i], v]
+                    else:
+                        items.append(v)
+            heap[a][1] = items
+            return a
+        kind = r.choice(['list', 'list', 'list', 'dict', 'dict', 'set', 'tuple'])
+        root = container(kind, 0, frozenset(), must_mut=(kind == 'tuple'))
+        return heap, root
+
+    @staticmethod
+    def mutables(heap, root):
+        """(python path, model path, kind) of every list / dict / set reachable from the root"""
+        out, seen = [], set()
+
+        def walk(a, pp, mp):
+            if a in seen or len(pp) > 3:
+                return
+            seen.add(a)
+            kind, items = heap[a]
+            if kind in ('list', 'dict', 'set'):
+                out.append((pp, mp, kind))
+            if kind in ('list', 'tuple'):
+                for i, it in enumerate(items):
+                    if it[0] == 'ref':
+                        walk(it[1], pp + [i], mp + [i])
+            elif kind == 'dict':
+                for j in range(0, len(items), 2):
+                    if items[j + 1][0] == 'ref':
+                        import ast
+                        walk(items[j + 1][1], pp + [ast.literal_eval(items[j][1])], mp + [j + 1])
+        walk(root, [], [])
+        return out
+
+    def case(self, pos=None):
+        r = self.rng
+        heap, root = self.literal()
+        muts = self.mutables(heap, root)
+        steps = []
+        for _ in range(r.randint(1, 3)):
+            pp, mp, kind = r.choice(muts)
+            steps.append(['push', pp, mp, r.choice(['id', 'id', 'name']), r.choice(['tmethod', 'callable']), kind])
+        ny = r.randint(1, 2)
+        for i in range(ny):
+            steps.insert(r.randint(1, len(steps)), ['y', None])
+        k = 0
+        for st in steps:
+            if st[0] == 'y':
+                st[1] = k
+                k += 1
+        pos = pos or r.choice(ARG_POS)
+        return 'acc_' + pos, ['accum', {'heap': heap, 'root': root, 'pos': pos, 'steps': steps}], ny
+
+
+def gen_accum(rng, tier):
+    """ONE spec object with a container literal in argument position, used by several calls: threads
+    interleaved at the yield points (sampled interleavings, among them the strictly alternating one
+    and `one call after the other`), a re-entrant call with the same spec object from a yield point,
+    free-running threads; the same target twice as well"""
+    quick = tier == 'quick'
+    TA, TB, TC = D(id='A', name='alpha'), D(id='B', name='beta'), D(id='C', name='gamma')
+    g = AccGen(rng)
+    poss = list(ARG_POS)
+    for rep in range(72 if quick else 1200):
+        name, spec, ny = g.case(pos=poss[rep % len(poss)])
+        targets = [TA, TB] if rng.random() < 0.8 else [TA, TA]
+        alt = [i % 2 for i in range(2 * (ny + 1))]
+        scheds = [alt, sorted(alt)]
+        allsc = list(interleavings([ny + 1, ny + 1]))
+        scheds += rng.sample(allsc, 2 if quick else min(len(allsc), 8))
+        seen = []
+        for sc in scheds:
+            if sc not in seen:
+                seen.append(sc)
+                yield {'mode': 'shared', 'names': [name], 'spec': spec, 'targets': targets, 'schedule': sc}
+        if not quick or rep % 3 == 0:
+            sc = rand_interleaving(rng, [ny + 1] * 3)
+            yield {'mode': 'shared', 'names': [name], 'spec': spec, 'targets': [TA, TB, TC], 'schedule': sc}
+        for j in ([rng.randrange(ny)] if quick else range(ny)):
+            yield {'mode': 'shared', 'names': [name], 'spec': spec, 'targets': targets, 'nest_at': j}
+        if not quick or rep % 6 == 0:
+            yield {'mode': 'shared', 'names': [name], 'spec': spec, 'targets': [TA, TB, TC], 'reps': 8 if quick else 40}
+
+
 class ReentGen:
     """randomised, type-directed generator of outer calls that re-enter glom with access to the
     running scope.  Choices: the re-entry point (custom glomit spec / plain callable given S), the
@@ -1518,6 +1844,8 @@ def generate(rng, tier, scale, **focus):
         yield {'mode': 'free', 'calls': [c[1] for c in cs], 'names': [c[0] for c in cs], 'reps': 15 if quick else 60}
     # --- ONE spec object shared by the calls
     yield from gen_shared(rng, tier)
+    # --- ... with a container literal in argument position whose value the calls mutate and read
+    yield from gen_accum(rng, tier)
     # --- nestings
     for rep in range(1 if quick else 5):
         for name, call in nested_templates(fresh()):
